@@ -66,6 +66,8 @@ func NewRecord(recType RecordType, from, to sha.SHA1, name, email string, t time
 	_, offset := t.Zone()
 	offsetMinutes := offset / 60
 	timeDiff := fmt.Sprintf("%+03d%02d", offsetMinutes/60, offsetMinutes%60)
+	// a log record is one line: keep only the first line of the message
+	message = strings.SplitN(message, "\n", 2)[0]
 
 	return &record{
 		recType:  recType,
